@@ -304,6 +304,11 @@ func readAttr(b *bolt.Bucket, attr *metadata.Attr) error {
 	})
 }
 
+func readMode(b *bolt.Bucket) os.FileMode {
+	mode, _ := binary.Uvarint(b.Get(bucketKeyMode))
+	return os.FileMode(uint32(mode))
+}
+
 func readNumLink(b *bolt.Bucket) int {
 	// numLink = 0 means num link = 1 in BD
 	numLink, _ := binary.Varint(b.Get(bucketKeyNumLink))
